@@ -9,7 +9,6 @@ use std::sync::atomic::{AtomicBool, Ordering};
 use std::sync::{Arc, Mutex};
 use std::task::{Context, Poll, Wake, Waker};
 
-use beetswap::multihasher::StandardMultihasher;
 use beetswap::verif::proto::mod_Message::mod_Wantlist::{Entry, WantType};
 use beetswap::verif::proto::mod_Message::{Block, BlockPresence, BlockPresenceType, Wantlist};
 use beetswap::verif::proto::Message;
@@ -18,7 +17,7 @@ use futures::io::{AsyncRead, AsyncWrite};
 use libp2p_swarm::{ConnectionHandler, ConnectionHandlerEvent};
 
 use crate::e_codec::{chk, encode};
-use crate::e_hasher::hres_j;
+use crate::e_hasher::{hres_j, Kind, ScriptHasher};
 use crate::e_incoming::wantlist_j;
 use crate::gen::*;
 use crate::json::{Case, J};
@@ -76,7 +75,7 @@ impl Wake for Flag {
 }
 
 /// a message of stream k: every element names one of the stream's own CIDs
-fn gen_msg(rng: &mut Rng, k: usize, pool: &[(Cid64, Vec<u8>)], tags: &mut Vec<String>) -> Message {
+fn gen_msg(rng: &mut Rng, k: usize, pool: &[(Cid64, Vec<u8>)], scripted: bool, tags: &mut Vec<String>) -> Message {
     let mut m = Message::default();
     let what = rng.below(7);
     if what <= 2 || what == 6 {
@@ -97,6 +96,14 @@ fn gen_msg(rng: &mut Rng, k: usize, pool: &[(Cid64, Vec<u8>)], tags: &mut Vec<St
     if (2..=5).contains(&what) {
         for _ in 0..1 + rng.usize(2) {
             let (c, d) = rng.pick(pool).clone();
+            if scripted && rng.chance(1, 2) {
+                // under the asynchronous scripted hasher (0-3 extra polls); the data names the stream (attribution)
+                let mut p = vec![1u8, 0x55];
+                p.extend(leb128(0x99));
+                p.push(8);
+                m.payload.push(Block { prefix: p, data: vec![rng.below(8) as u8, 9, 9, k as u8] });
+                continue;
+            }
             m.payload.push(match rng.below(8) {
                 0 => { tags.push("blk/unknown_code".into()); Block { prefix: vec![1, 0x55, 0x77, 4], data: d } }
                 1 => { tags.push("blk/wrong_data".into()); Block { prefix: Prefix::from_cid(&c).to_bytes(), data: vec![9, 9, k as u8] } }
@@ -115,11 +122,11 @@ fn gen_msg(rng: &mut Rng, k: usize, pool: &[(Cid64, Vec<u8>)], tags: &mut Vec<St
     m
 }
 
-fn stream_events(rng: &mut Rng, k: usize, pool: &[(Cid64, Vec<u8>)], tags: &mut Vec<String>) -> (Vec<Ev>, Vec<u8>) {
+fn stream_events(rng: &mut Rng, k: usize, pool: &[(Cid64, Vec<u8>)], scripted: bool, tags: &mut Vec<String>) -> (Vec<Ev>, Vec<u8>) {
     let nmsgs = 1 + rng.usize(4);
     let mut bytes = Vec::new();
     for i in 0..nmsgs {
-        let m = gen_msg(rng, k, pool, tags);
+        let m = gen_msg(rng, k, pool, scripted, tags);
         let mut f = encode(&m).unwrap();
         if rng.chance(1, 6) {
             match rng.below(5) {
@@ -180,10 +187,15 @@ fn msg_j(parts: beetswap::verif::IncomingParts<64>) -> (J, Vec<Vec<u8>>) {
 fn one(rng: &mut Rng) -> Case {
     let nstreams = 1 + rng.usize(4);
     let mut tags = vec![format!("streams{nstreams}")];
-    let table = HasherTable::<64>::new(Vec::<StandardMultihasher>::new());
+    let scripted = rng.chance(1, 2);
+    let hasher = ScriptHasher { id: 0, answers: vec![(0x99, Kind::Ok(rng.bytes(8)))], log: Arc::new(Mutex::new(Vec::new())) };
+    let table = if scripted { HasherTable::<64>::new(vec![hasher.clone()]) } else { HasherTable::<64>::new(Vec::<ScriptHasher>::new()) };
+    if scripted {
+        tags.push("async_hasher".into());
+    }
     let pools: Vec<Vec<(Cid64, Vec<u8>)>> =
         (0..nstreams).map(|k| (0..2).map(|i| { let d = vec![k as u8, i as u8, 5]; (honest_cid::<64>(rng, &d), d) }).collect()).collect();
-    let scripts: Vec<(Vec<Ev>, Vec<u8>)> = pools.iter().enumerate().map(|(k, p)| stream_events(rng, k, p, &mut tags)).collect();
+    let scripts: Vec<(Vec<Ev>, Vec<u8>)> = pools.iter().enumerate().map(|(k, p)| stream_events(rng, k, p, scripted, &mut tags)).collect();
     // when each stream is opened: after how many handler polls
     let open_at: Vec<usize> = (0..nstreams).map(|k| if k == 0 { 0 } else { rng.usize(6) }).collect();
 
@@ -211,7 +223,8 @@ fn one(rng: &mut Rng) -> Case {
     let obs2 = observed.clone();
     let mut alive_end = 0usize;
     let res = catch_unwind(AssertUnwindSafe(|| {
-        let mut node = Node::new(|b| b, 1);
+        let h2 = hasher.clone();
+        let mut node = Node::new(move |b| if scripted { b.register_multihasher(h2) } else { b }, 1);
         let mut h = node.new_conn(0, 0);
         let flag = Arc::new(Flag(AtomicBool::new(false)));
         let waker = Waker::from(flag.clone());
@@ -231,7 +244,7 @@ fn one(rng: &mut Rng) -> Case {
             match h.poll(&mut cx) {
                 Poll::Ready(ConnectionHandlerEvent::NotifyBehaviour(ToBehaviourEvent::IncomingMessage(_, m))) => {
                     let (j, cids) = msg_j(incoming_parts(&m));
-                    let k = pools.iter().enumerate().position(|(k, p)| p.iter().any(|(c, _)| cids.iter().any(|x| *x == c.to_bytes() || *x == vec![9u8, 9, k as u8]))).unwrap_or(usize::MAX);
+                    let k = pools.iter().enumerate().position(|(k, p)| p.iter().any(|(c, _)| cids.iter().any(|x| *x == c.to_bytes() || *x == vec![9u8, 9, k as u8] || (x.len() == 4 && x[1..] == [9u8, 9, k as u8])))).unwrap_or(usize::MAX);
                     obs2.lock().unwrap().push((k, j));
                     idle_rounds = 0;
                 }
